@@ -132,7 +132,6 @@ class BundledFileProxy:
     def __call__(self, name: str):
         k = self.op_opens
         self.op_opens += 1
-        self.opens += 1
         if self.ctx is not None:
             self.ctx.log("open", name, k)
         p = self.plan
@@ -142,6 +141,7 @@ class BundledFileProxy:
                 self.ctx.log("fault", "open", name, p["errno"])
             raise InjectedOSError(p["errno"], os.strerror(p["errno"]), name)
         f = self.real_open(name)
+        self.opens += 1  # handles actually handed out (closes are counted in __exit__)
         return _TableFile(f, self, name, k)
 
 
@@ -413,3 +413,13 @@ def install_gzip_clock() -> None:
     import gzip
 
     gzip.time = GZIP_TIME
+
+
+class SimInterrupt(KeyboardInterrupt):
+    """Asynchronous cancellation of the caller (Ctrl-C in a notebook, a task being cancelled):
+    raised by the scheduler at a scenario-chosen line boundary or inside a write().  Derives from
+    KeyboardInterrupt so that `except Exception` in the code under test does not swallow it."""
+
+
+def interrupt_now(_frame_or_k=None):
+    raise SimInterrupt("simulated interruption")
